@@ -57,7 +57,8 @@ func run(r *report.Run, shard, nshards int, replayFile string) {
 	r.Assumptions = []string{
 		"histories are not enumerated: the quantifier 'all block histories' is covered by this one driver history only",
 		"digest = AppHash + per-tx (code, codespace, data, gas used, events) + block events; tx log strings are excluded (not consensus relevant)",
-		"map-iteration deviations exist only in the binary built against the patched runtime (bin/check builds it); rotations are exactly what runtime.mapiterinit can produce",
+		"map-iteration deviations exist only in the binary built against the patched runtime (bin/check builds it); rotations are exactly what runtime.mapiterinit can produce; only range statements over maps with at least two entries are deviation points",
+		"the default wall clock sits at chain time (a node executing live); clock deviations are +40 days, +1100 days (a node replaying later), -400 days and a per-block jitter",
 	}
 	h := newHistory()
 	if replayFile != "" {
@@ -185,6 +186,7 @@ type history struct {
 type mapSite struct {
 	Index int
 	Site  string
+	Count int // entries of the map at that range statement
 }
 
 func newHistory() *history { return &history{} }
@@ -201,7 +203,8 @@ func (h *history) deviations(r *report.Run, base []blockDigest) []dev {
 	}
 	// clock (patched runtime only)
 	if mapHookAvailable() {
-		out = append(out, dev{Kind: "clock", Skew: 400 * 86400}, dev{Kind: "clock", Skew: -400 * 86400}, dev{Kind: "clock", Skew: 3600, PerBlock: true})
+		// default: wall clock = chain time; deviations: a node replaying the history 40 days / 3 years later, one whose clock is behind, a jittering clock
+		out = append(out, dev{Kind: "clock", Skew: 40 * 86400}, dev{Kind: "clock", Skew: 1100 * 86400}, dev{Kind: "clock", Skew: -400 * 86400}, dev{Kind: "clock", Skew: 3600, PerBlock: true})
 	}
 	// restart / queries at block boundaries
 	interesting := func(i int) bool {
@@ -218,20 +221,26 @@ func (h *history) deviations(r *report.Run, base []blockDigest) []dev {
 	}
 	// map iteration (patched runtime only)
 	if mapHookAvailable() {
-		rots := []uint64{1, 2, 5}
-		if r.Thorough() {
-			rots = []uint64{1, 2, 3, 4, 5, 6, 7}
-		}
 		seenSite := map[string]int{}
 		for _, s := range h.mapSites {
 			seenSite[s.Site]++
-			// quick: first two dynamic occurrences per static site; thorough: up to 40 per site
-			limit := 2
+			// quick: first three dynamic occurrences (over maps with >= 2 entries) per static site; thorough: up to 40 per site
+			limit := 3
 			if r.Thorough() {
 				limit = 40
 			}
 			if seenSite[s.Site] > limit {
 				continue
+			}
+			// a map of n <= 8 entries lives in one bucket: the start offsets 1..n-1 are all its rotations
+			// (larger maps: a fixed menu that also varies the start bucket)
+			var rots []uint64
+			if s.Count <= 8 {
+				for o := 1; o < s.Count; o++ {
+					rots = append(rots, uint64(o))
+				}
+			} else {
+				rots = []uint64{1, 2, 3, 5, 7}
 			}
 			for _, rot := range rots {
 				out = append(out, dev{Kind: "map", MapIndex: s.Index, MapRot: rot * 0x0101010101010101, MapSite: s.Site})
